@@ -26,6 +26,7 @@
 #include <cstring>
 #include <ctime>
 #include <string>
+#include <thread>
 #include <vector>
 
 #include <sys/mman.h>
@@ -1714,6 +1715,375 @@ struct NtHalfTask : Task
     }
 };
 
+// ------------------------------------------------------------------------------------------------
+// Part 10: call HISTORIES.
+//
+// Parts 1-9 evaluate each function in ONE sweep per function over its arguments, so whatever a call leaves behind (a cache of the last
+// argument reduction, a thread_local or static variable, the error flags of the error-handling build, a lazily filled table) only ever
+// meets the next call of the SAME function on the NEXT argument.  "Returns the correctly rounded value for every argument" does not
+// depend on what was called before, so this part enumerates what precedes a call:
+//
+//   walk   for every argument x of a range and a RELATION p (partner argument: p(x) = x, -x, the next bit pattern, the neighbouring
+//          binade, a constant special value), the entry points e_0 e_1 e_2 ... are called along an Eulerian circuit of the complete
+//          directed graph (with loops) on the set of entry points, alternately on x and p(x).  Consecutive calls of the circuit are
+//          therefore EVERY ordered pair (f, g) of entry points exactly once per lap: g(x) right after f(p(x)) and g(p(x)) right after
+//          f(x).  Relations that are not involutions walk two laps with the roles of x and p(x) exchanged.
+//   fresh  every entry point g on every argument of an alphabet (thorough: all 2^16) as the FIRST library call of a newly created
+//          thread (the empty history in the initial state of all thread_local data).
+//
+// Oracle.  A table T_g[x] of every entry point over all 2^16 arguments is computed first, each g in one ascending sweep of its own - the
+// very history parts 1 and 2 judge against MPFR / the float functions.  Every call of a walk is compared with the table (NaN results
+// canonicalised, results C leaves unspecified masked).  A difference is NOT yet a violation (a function documented "may be 1 ULP off"
+// may legitimately give another value within its tolerance): it is then judged by the independent reference exactly like parts 1, 2
+// and 4 - MPFR correctly rounded binary16 with the documented tolerance, the float functions, the bit-pattern definitions - and only a
+// result that fails that judgement is reported.  Differences that pass are counted.
+// ------------------------------------------------------------------------------------------------
+enum { HK_UNARY, HK_SINCOS, HK_FLOATLIKE, HK_BINARY };
+struct HEntry
+{
+    std::string name;
+    int kind, idx;
+    u16 c;       // binary section: the constant operand
+    int pos;     // binary section: 0 = b(x, c), 1 = b(c, x)
+};
+enum { H_CALLS, H_DIFF, H_DIFF_OK, H_FRESH, H_N };
+static const char* hnames[H_N] = {"history_walk_calls_compared_with_isolated_sweep", "history_results_differing_from_isolated_sweep",
+                                  "history_differences_within_documented_tolerance", "history_first_calls_in_fresh_thread"};
+struct Shared3 { volatile long long cnt[H_N]; };
+static Shared3* g_sh3 = nullptr;
+
+static inline u16 canon(u16 b) { return h_isnan(b) ? u16(0x7E00) : b; }
+
+static std::vector<HEntry> h_entries(const std::string& set)   // "u": unary + float-like; "b1" / "b2" / "b4": + sections of the binary functions
+{
+    std::vector<HEntry> v;
+    for (int i = 0; i < n_unary; ++i)
+    {
+        std::string n = unaries[i].name;
+        if (n == "sincos.cos") continue;
+        if (n == "sincos.sin") v.push_back(HEntry{"sincos", HK_SINCOS, i, 0, 0});
+        else v.push_back(HEntry{n, HK_UNARY, i, 0, 0});
+    }
+    for (int i = 0; i < n_fn; ++i) v.push_back(HEntry{fnames[i], HK_FLOATLIKE, i, 0, 0});
+    int nc = set == "b1" ? 1 : set == "b2" ? 2 : set == "b4" ? 4 : 0;
+    // constants of the sections: 3.140625 (general path of every kernel), -0.33325 (negative, below one), 1 (the identity / special-case
+    // ladders), a subnormal
+    static const u16 cs[4] = {0x4248, 0xB555, 0x3C00, 0x0203};
+    for (int k = 0; k < B_N; ++k)
+        for (int ci = 0; ci < nc; ++ci)
+            for (int pos = 0; pos < 2; ++pos)
+                v.push_back(HEntry{std::string(bnames[k]) + (pos ? "(" + hexs(cs[ci]) + ",.)" : "(.," + hexs(cs[ci]) + ")"), HK_BINARY, k, cs[ci], pos});
+    return v;
+}
+
+// float-like family: implementation (impl) or float-function reference, packed; what C leaves unspecified is masked to 0
+static uint64_t fl_packed(int fi, u16 x, bool impl)
+{
+    float xf = float(h2d(x));
+    half a = mk(x);
+    switch (fi)
+    {
+    case 0: return canon(impl ? bits(half_float::ceil(a)) : f2h<float>(::ceilf(xf)));
+    case 1: return canon(impl ? bits(half_float::floor(a)) : f2h<float>(::floorf(xf)));
+    case 2: return canon(impl ? bits(half_float::trunc(a)) : f2h<float>(::truncf(xf)));
+    case 3: return canon(impl ? bits(half_float::round(a)) : f2h<float>(::roundf(xf)));
+    case 4: return canon(impl ? bits(half_float::rint(a)) : f2h<float>(g_rs == 1 ? ::rintf(xf) : g_rs == 0 ? ::truncf(xf) : g_rs == 2 ? ::ceilf(xf) : ::floorf(xf)));
+    case 5: return canon(impl ? bits(half_float::nearbyint(a)) : f2h<float>(g_rs == 1 ? ::nearbyintf(xf) : g_rs == 0 ? ::truncf(xf) : g_rs == 2 ? ::ceilf(xf) : ::floorf(xf)));
+    case 6: case 7: case 8: case 9:
+    {
+        if (!h_isfinite(x)) return 0;    // C leaves the result unspecified: not called, not a case
+        long long r;
+        if (impl) r = fi == 6 ? half_float::lround(a) : fi == 7 ? half_float::llround(a) : fi == 8 ? half_float::lrint(a) : half_float::llrint(a);
+        else if (fi == 6) r = ::lroundf(xf);
+        else if (fi == 7) r = ::llroundf(xf);
+        else r = g_rs == 1 ? (fi == 8 ? (long long)::lrintf(xf) : ::llrintf(xf)) : (long long)(g_rs == 0 ? ::truncf(xf) : g_rs == 2 ? ::ceilf(xf) : ::floorf(xf));
+        return uint64_t(r);
+    }
+    case 10:
+    {
+        int e = 0;
+        u16 f;
+        if (impl) f = bits(half_float::frexp(a, &e)); else f = f2h<float>(::frexpf(xf, &e));
+        return (uint64_t(canon(f)) << 32) | (h_isfinite(x) ? uint32_t(e) : 0u);
+    }
+    case 11:
+    {
+        u16 f, ib;
+        if (impl) { half ip = mk(0x1234); f = bits(half_float::modf(a, &ip)); ib = bits(ip); }
+        else { float ei = 0; f = f2h<float>(::modff(xf, &ei)); ib = f2h<float>(ei); }
+        return (uint64_t(canon(f)) << 16) | canon(ib);
+    }
+    case 12: return uint32_t(impl ? half_float::ilogb(a) : ::ilogbf(xf));
+    default: return canon(impl ? bits(half_float::logb(a)) : f2h<float>(::logbf(xf)));
+    }
+}
+
+static inline bool quo_specified(u16 x, u16 y) { return h_isfinite(x) && !h_isnan(y) && !h_iszero(y); }
+
+// one call of the real function; result packed, NaNs canonicalised
+static uint64_t h_call(const HEntry& e, u16 x)
+{
+    switch (e.kind)
+    {
+    case HK_UNARY: return canon(bits(unaries[e.idx].impl(mk(x))));
+    case HK_SINCOS: { half s, c; half_float::sincos(mk(x), &s, &c); return (uint64_t(canon(bits(s))) << 16) | canon(bits(c)); }
+    case HK_FLOATLIKE: return fl_packed(e.idx, x, true);
+    default:
+    {
+        u16 a = e.pos ? e.c : x, b = e.pos ? x : e.c;
+        int quo = 0;
+        u16 r = canon(b_impl(e.idx, a, b, &quo));
+        if (e.idx == B_REMQUO) return (uint64_t(r) << 32) | (quo_specified(a, b) ? uint32_t(quo) : 0u);
+        return r;
+    }
+    }
+}
+
+static std::string h_show(const HEntry& e, uint64_t v)
+{
+    char buf[96];
+    switch (e.kind)
+    {
+    case HK_UNARY: return hx(u16(v));
+    case HK_SINCOS: return "sin=" + hx(u16(v >> 16)) + " cos=" + hx(u16(v));
+    case HK_FLOATLIKE:
+        if (e.idx <= 5 || e.idx == 13) return hx(u16(v));
+        if (e.idx <= 9) { std::snprintf(buf, sizeof buf, "%lld", (long long)v); return buf; }
+        if (e.idx == 10) return hx(u16(v >> 32)) + " exponent " + vf::str(int(uint32_t(v)));
+        if (e.idx == 11) return "fraction " + hx(u16(v >> 16)) + " integral part " + hx(u16(v));
+        return vf::str(int(uint32_t(v)));
+    default:
+        if (e.idx == B_REMQUO) return hx(u16(v >> 32)) + " quo " + vf::str(int(uint32_t(v)));
+        return hx(u16(v));
+    }
+}
+
+// the independent judgement of a result r of entry e on argument x: "" = acceptable under the statement, otherwise the failure kind
+static std::string h_judge(const HEntry& e, u16 x, uint64_t r, std::string& want)
+{
+    g_sh->phase = 2;
+    std::string kind;
+    switch (e.kind)
+    {
+    case HK_UNARY:
+    {
+        const Unary& u = unaries[e.idx];
+        RefOut o = ref1(u.mp, x);
+        kind = judge(u16(r), o.a, u.max_ulp, o.special);
+        want = "correctly rounded binary16 result (MPFR)" + rs_text() + " is " + hx(o.a) + (u.max_ulp ? ", documented tolerance 1 ULP" : ", documented exact to rounding");
+        break;
+    }
+    case HK_SINCOS:
+    {
+        RefOut s = ref1(mpfr_sin, x), c = ref1(mpfr_cos, x);
+        kind = judge(u16(r >> 16), s.a, 0, s.special);
+        if (kind.empty()) kind = judge(u16(r), c.a, 0, c.special);
+        want = "correctly rounded binary16 results (MPFR)" + rs_text() + " are sin=" + hx(s.a) + " cos=" + hx(c.a) + ", documented exact to rounding";
+        break;
+    }
+    case HK_FLOATLIKE:
+    {
+        uint64_t a = fl_packed(e.idx, x, false);
+        if (a != r) kind = "wrong-value";
+        want = "the float function (result rounded to binary16) gives " + h_show(e, a);
+        break;
+    }
+    default:
+    {
+        int k = e.idx;
+        u16 ax = e.pos ? e.c : x, ay = e.pos ? x : e.c;
+        u16 rv = k == B_REMQUO ? u16(r >> 32) : u16(r);
+        bool exactkind = (k == B_NEXTAFTER || k == B_COPYSIGN), special = false;
+        u16 a;
+        if (exactkind) a = k == B_NEXTAFTER ? ref_nextafter(ax, ay) : u16((ax & 0x7FFF) | (ay & 0x8000));
+        else { RefOut o = ref2(b_mp[k], ax, ay); a = o.a; special = o.special; }
+        bool zero_sign_free = (k == B_FMAX || k == B_FMIN) && h_iszero(ax) && h_iszero(ay);
+        if (zero_sign_free) kind = h_iszero(rv) ? "" : "wrong-value";
+        else if (k == B_HYPOT || k == B_POW || k == B_ATAN2) kind = judge(rv, a, b_ulp[k], special);
+        else if (!same_h(rv, a)) kind = h_isnan(a) ? "number-for-nan" : h_isnan(rv) ? "nan-for-number" : (h_iszero(a) && h_iszero(rv)) ? "wrong-sign-of-zero" : "wrong-value";
+        if (g_eh && !kind.empty() && h_isnan(rv) && (h_issnan(ax) || h_issnan(ay))) kind.clear();   // see do_binary
+        want = "reference" + rs_text() + " " + hx(a) + (b_ulp[k] ? " (MPFR, correctly rounded; documented tolerance 1 ULP)" : " (exact / correctly rounded)");
+        if (kind.empty() && k == B_REMQUO && quo_specified(ax, ay))
+        {
+            int quo = int(uint32_t(r)), gq = 0;
+            double dx = h2d(ax), dy = h2d(ay);
+            (void)std::remquo(dx, dy, &gq);
+            unsigned w = unsigned(std::abs(gq)) & 7, got = unsigned(std::abs(quo)) & 7;
+            bool neg = (std::signbit(dx) != std::signbit(dy));
+            if (!(w == got && (quo == 0 || (quo < 0) == neg)))
+            {
+                kind = "wrong-quotient-bits";
+                want = "the integral quotient is congruent to " + std::string((neg && w) ? "-" : "") + vf::str(w) + " modulo 8 (glibc remquo gives " + vf::str(gq) + ")";
+            }
+        }
+        break;
+    }
+    }
+    g_sh->phase = 1;
+    return kind;
+}
+
+struct HRel
+{
+    std::string name;
+    int kind;    // 0 same argument, 1 xor mask, 2 next bit pattern, 3 constant
+    u16 v;
+    int laps;
+    u16 partner(u16 x) const { return kind == 0 ? x : kind == 1 ? u16(x ^ v) : kind == 2 ? u16(x + 1) : v; }
+};
+static bool h_rel(const std::string& s, HRel& r)
+{
+    r.name = s;
+    if (s == "same") { r.kind = 0; r.v = 0; r.laps = 1; return true; }
+    if (s == "neg") { r.kind = 1; r.v = 0x8000; r.laps = 1; return true; }
+    if (s.compare(0, 4, "xor:") == 0) { r.kind = 1; r.v = u16(std::strtoul(s.c_str() + 4, nullptr, 16)); r.laps = 1; return r.v != 0; }
+    if (s == "next") { r.kind = 2; r.v = 0; r.laps = 2; return true; }
+    if (s.compare(0, 6, "const:") == 0) { r.kind = 3; r.v = u16(std::strtoul(s.c_str() + 6, nullptr, 16)); r.laps = 2; return true; }
+    return false;
+}
+
+// Eulerian circuit of the complete directed graph with loops on n vertices (Hierholzer): n*n + 1 vertices, first == last, every ordered
+// pair (a, b) appears exactly once as two consecutive vertices.  Verified after construction.
+static std::vector<int> h_circuit(int n)
+{
+    std::vector<int> next_out(n, 0), stack, out;
+    stack.push_back(0);
+    while (!stack.empty())
+    {
+        int v = stack.back();
+        if (next_out[v] < n) { int w = (v + 1 + next_out[v]) % n; ++next_out[v]; stack.push_back(w); }   // edge v -> w; the loop v -> v comes last
+        else { out.push_back(v); stack.pop_back(); }
+    }
+    std::reverse(out.begin(), out.end());
+    std::vector<char> seen(size_t(n) * n, 0);
+    size_t distinct = 0;
+    for (size_t i = 0; i + 1 < out.size(); ++i)
+    {
+        char& s = seen[size_t(out[i]) * n + out[i + 1]];
+        if (!s) { s = 1; ++distinct; }
+    }
+    if (out.size() != size_t(n) * n + 1 || distinct != size_t(n) * n || out.front() != out.back())
+    {
+        std::fprintf(stderr, "history: circuit construction failed (%zu vertices, %zu distinct pairs, n=%d)\n", out.size(), distinct, n);
+        std::exit(3);
+    }
+    return out;
+}
+
+struct HistBase : Task
+{
+    std::string set;
+    std::vector<HEntry> es;
+    std::vector<std::vector<uint64_t>> tab;      // tab[e][x]: entry e in an ascending sweep of its own
+    bool ready = false;
+    void init(const std::string& s) { set = s; es = h_entries(s); }
+    void tables()
+    {
+        if (ready) return;
+        g_sh->phase = 1;
+        tab.assign(es.size(), std::vector<uint64_t>(65536));
+        for (size_t e = 0; e < es.size(); ++e)
+            for (unsigned x = 0; x < 65536; ++x) tab[e][x] = h_call(es[e], u16(x));
+        ready = true;
+    }
+    // compare one result with the isolated sweep; on a difference ask the independent reference
+    void check(int ei, u16 arg, uint64_t r, const std::string& sigmid, const std::string& context, const std::vector<std::string>& rp)
+    {
+        if (r == tab[ei][arg]) return;
+        g_sh3->cnt[H_DIFF]++;
+        std::string want;
+        std::string kind = h_judge(es[ei], arg, r, want);
+        if (kind.empty()) { g_sh3->cnt[H_DIFF_OK]++; return; }
+        cnt(C_VIOL);
+        vf::violation(sigroot() + "history:" + es[ei].name + "/" + sigmid + "/" + cls(arg) + "/" + kind,
+                      es[ei].name + " on " + hx(arg) + " returned " + h_show(es[ei], r) + " " + context + "; in an argument sweep of " + es[ei].name +
+                          " alone the same call returns " + h_show(es[ei], tab[ei][arg]) + "; " + want + ". The result of a call must not depend on the calls made before it",
+                      rp);
+    }
+};
+
+struct HistWalkTask : HistBase
+{
+    HRel rel;
+    unsigned lo, hi;
+    unsigned only = 0x10000;        // replay: report for this argument only (the one before it is walked to recreate the state)
+    std::vector<int> circ;
+    unsigned long long size() const override { return hi - lo; }
+    void walk(u16 x, bool report)
+    {
+        u16 p = rel.partner(x);
+        int prev = -1;
+        u16 prevarg = 0;
+        for (int lap = 0; lap < rel.laps; ++lap)
+            for (size_t j = 0; j < circ.size(); ++j)
+            {
+                int ei = circ[j];
+                u16 arg = ((j + lap) & 1) ? p : x;
+                uint64_t r = h_call(es[ei], arg);
+                if (report)
+                {
+                    g_sh3->cnt[H_CALLS]++;
+                    cnt(C_EVAL);
+                    if (r != tab[ei][arg])
+                    {
+                        std::string after = prev < 0 ? std::string("start-of-walk") : "after-" + es[prev].name;
+                        std::string ctx = prev < 0 ? std::string("as the first call of the walk on this argument")
+                                                   : "when called right after " + es[prev].name + " on " + hx(prevarg) + " (relation '" + rel.name + "', walk on " + hexs(x) + ", lap " + vf::str(lap) + " step " + vf::str(j) + ")";
+                        check(ei, arg, r, after + "," + rel.name, ctx, {"--history", "one", set, rel.name, hexs(x), vf::str(lo)});
+                    }
+                    if (g_verbose && r != tab[ei][arg]) std::printf("walk %s step %zu: %s(%s) = %s, isolated %s\n", hexs(x).c_str(), j, es[ei].name.c_str(), hx(arg).c_str(), h_show(es[ei], r).c_str(), h_show(es[ei], tab[ei][arg]).c_str());
+                }
+                prev = ei;
+                prevarg = arg;
+            }
+    }
+    void run(unsigned long long i) override
+    {
+        tables();
+        g_sh->phase = 1;
+        u16 x = u16(lo + i);
+        walk(x, only == 0x10000 || x == only);
+        g_sh->phase = 0;
+    }
+    std::string describe(unsigned long long i, std::vector<std::string>& rp, std::string& sb) override
+    {
+        u16 x = u16(lo + i);
+        rp = {"--history", "one", set, rel.name, hexs(x), vf::str(lo)};
+        sb = sigroot() + "history:walk," + rel.name + "/" + cls(x);
+        return "walk of all entry points (relation '" + rel.name + "') on " + hx(x);
+    }
+};
+
+struct HistFreshTask : HistBase
+{
+    std::vector<u16> xs;
+    int only_e = -1;
+    unsigned long long size() const override { return es.size() * xs.size(); }
+    void run(unsigned long long i) override
+    {
+        tables();
+        g_sh->phase = 1;
+        int ei = int(i / xs.size());
+        u16 x = xs[i % xs.size()];
+        uint64_t r = 0;
+        const HEntry& e = es[ei];
+        std::thread t([&r, &e, x] { r = h_call(e, x); });
+        t.join();
+        g_sh3->cnt[H_FRESH]++;
+        cnt(C_EVAL);
+        check(ei, x, r, "first-call-in-fresh-thread", "as the first library call of a newly created thread", {"--history", "fresh1", set, e.name, hexs(x)});
+        g_sh->phase = 0;
+    }
+    std::string describe(unsigned long long i, std::vector<std::string>& rp, std::string& sb) override
+    {
+        int ei = int(i / xs.size());
+        u16 x = xs[i % xs.size()];
+        rp = {"--history", "fresh1", set, es[ei].name, hexs(x)};
+        sb = sigroot() + "history:" + es[ei].name + "/first-call-in-fresh-thread/" + cls(x);
+        return es[ei].name + " on " + hx(x) + " as the first call of a new thread";
+    }
+};
+
 struct OneTask : Task
 {
     std::vector<std::string> a;
@@ -1764,6 +2134,9 @@ int main(int argc, char** argv)
     g_sh2 = (Shared2*)mmap(nullptr, sizeof(Shared2), PROT_READ | PROT_WRITE, MAP_SHARED | MAP_ANONYMOUS, -1, 0);
     if (g_sh2 == MAP_FAILED) { std::perror("mmap"); return 3; }
     std::memset((void*)g_sh2, 0, sizeof(Shared2));
+    g_sh3 = (Shared3*)mmap(nullptr, sizeof(Shared3), PROT_READ | PROT_WRITE, MAP_SHARED | MAP_ANONYMOUS, -1, 0);
+    if (g_sh3 == MAP_FAILED) { std::perror("mmap"); return 3; }
+    std::memset((void*)g_sh3, 0, sizeof(Shared3));
     mp_init();
     for (unsigned b = 0; b < 65536; ++b) g_h2d[b] = h2d_slow(u16(b));
     std::vector<std::string> a(argv + 1, argv + argc);
@@ -1928,6 +2301,68 @@ int main(int argc, char** argv)
         else return 3;
         label = "nexttoward/" + what + (what == "halves" ? "-" + a.at(2) : std::string());
     }
+    else if (a[0] == "--history")          // --history walk <set> <relation> <lo> <hi> | fresh <set> alpha2|full <shard> <n> | one <set> <relation> <x> <lo> | fresh1 <set> <entry> <x> | list <set>
+    {
+        const std::string& what = a.at(1);
+        if (what == "list")
+        {
+            std::vector<HEntry> es = h_entries(a.at(2));
+            for (auto& e : es) std::printf("%s\n", e.name.c_str());
+            std::printf("%zu entry points, circuit of %zu calls\n", es.size(), h_circuit(int(es.size())).size());
+            return 0;
+        }
+        if (what == "walk" || what == "one")
+        {
+            HistWalkTask t;
+            t.init(a.at(2));
+            if (!h_rel(a.at(3), t.rel)) return 3;
+            t.circ = h_circuit(int(t.es.size()));
+            if (what == "walk")
+            {
+                t.lo = unsigned(std::strtoul(a.at(4).c_str(), nullptr, 0));
+                t.hi = unsigned(std::strtoul(a.at(5).c_str(), nullptr, 0));
+            }
+            else
+            {
+                unsigned x = unsigned(std::strtoul(a.at(4).c_str(), nullptr, 16)), lo = unsigned(std::strtoul(a.at(5).c_str(), nullptr, 0));
+                g_verbose = true;
+                t.only = x;
+                t.lo = x > lo ? x - 1 : x;      // the walk on the preceding argument recreates the state the sweep was in
+                t.hi = x + 1;
+            }
+            sweep(t);
+            if (what == "walk" && t.lo == 0)
+                vf::note("history walk, entry set '" + t.set + "': " + vf::str(t.es.size()) + " entry points, all " + vf::str(t.es.size() * t.es.size()) +
+                         " ordered pairs (f, g) as consecutive calls of an Eulerian circuit (" + vf::str(t.circ.size()) + " calls per lap and argument)");
+            if (what == "walk") { label = "history/walk-" + t.set + "-" + t.rel.name; vf::stat("history_ordered_function_pairs:" + t.set + "," + t.rel.name + (flavour().empty() ? "" : "," + flavour()), (long long)(t.es.size() * t.es.size()) * (t.lo == 0 ? 1 : 0)); }
+        }
+        else if (what == "fresh" || what == "fresh1")
+        {
+            HistFreshTask t;
+            t.init(a.at(2));
+            if (what == "fresh")
+            {
+                unsigned shard = unsigned(std::atoi(a.at(4).c_str())), ns = unsigned(std::atoi(a.at(5).c_str()));
+                std::vector<u16> all;
+                if (a.at(3) == "full") { for (unsigned x = 0; x < 65536; ++x) all.push_back(u16(x)); }
+                else all = alphabet(2);
+                size_t lo = all.size() * shard / ns, hi = all.size() * (shard + 1) / ns;
+                t.xs.assign(all.begin() + lo, all.begin() + hi);
+                label = "history/fresh-thread-" + t.set + "-" + a.at(3);
+            }
+            else
+            {
+                g_verbose = true;
+                std::vector<HEntry> one;
+                for (auto& e : t.es) if (e.name == a.at(3)) one.push_back(e);
+                if (one.size() != 1) return 3;
+                t.es = one;
+                t.xs.push_back(u16(std::strtoul(a.at(4).c_str(), nullptr, 16)));
+            }
+            sweep(t);
+        }
+        else return 3;
+    }
     else if (a[0] == "--alphabet-size") { std::printf("%zu %zu\n", alphabet(1).size(), alphabet(2).size()); return 0; }
     else return 3;
 
@@ -1956,6 +2391,8 @@ int main(int argc, char** argv)
     }
     for (int i = 0; i < C_N; ++i)
         if (g_sh->cnt[i]) vf::stat(cnames[i], g_sh->cnt[i]);
+    for (int i = 0; i < H_N; ++i)
+        if (g_sh3->cnt[i]) vf::stat(hnames[i], g_sh3->cnt[i]);
     for (int i = 0; i < C2_N; ++i)
         if (g_sh2->cnt[i] && !g_eh && !g_directed) vf::stat(c2names[i], g_sh2->cnt[i]);
     if (!label.empty() && !g_noref)
